@@ -162,13 +162,62 @@ fn build_from_tape(data: &[u16], st: &mut Stats) -> Option<Setup> {
         Some((pp, _)) => to_game(pp).moves().to_vec(),
         None => vec![],
     };
+    // what a search really remembers at this ply: moves of the *same side* that were legal in a sibling
+    // node (the parent position after another reply) - e.g. a castling move, remembered where the king
+    // was not in check, offered here where it is
+    let mut siblings: Vec<Move> = vec![];
+    if let Some((pp, played)) = &parent {
+        let replies = pp.legal_moves();
+        for _ in 0..2 {
+            if replies.len() < 2 {
+                break;
+            }
+            let r = replies[t.pick(replies.len())];
+            if r == *played {
+                continue;
+            }
+            siblings.extend(to_game(&pp.make(&r)).moves().to_vec());
+        }
+    }
+    // this side's moves with king safety ignored (pinned pieces leaving their ray, king steps into
+    // attack, non-evasions while in check), flagged the way the engine would flag them, and the
+    // castling move of every right still held, whether or not it can be played here
+    let mut near_misses: Vec<Move> = vec![];
+    for m in cur.pseudo_moves() {
+        let promo = m.promo.map(|k| match k {
+            Kind::Q => PromotionPieceKind::Queen,
+            Kind::R => PromotionPieceKind::Rook,
+            Kind::B => PromotionPieceKind::Bishop,
+            _ => PromotionPieceKind::Knight,
+        });
+        let flag = if m.ep { 'p' } else if m.capture { 'x' } else if m.castle { 'c' } else { 'q' };
+        if let Some(em) = build_move(m.from, m.to, promo, flag) {
+            if !legal.contains(&em) {
+                near_misses.push(em);
+            }
+        }
+    }
+    let home = if cur.white_to_move { 0 } else { 56 };
+    let rights = if cur.white_to_move { [cur.castle[0], cur.castle[1]] } else { [cur.castle[2], cur.castle[3]] };
+    for (i, held) in rights.iter().enumerate() {
+        if *held {
+            let to = if i == 0 { home + 6 } else { home + 2 };
+            if let Some(em) = build_move(home + 4, to, None, 'c') {
+                if !legal.contains(&em) {
+                    near_misses.push(em);
+                }
+            }
+        }
+    }
     let mut pool = |t: &mut Tape| -> Option<Move> {
-        match t.pick(8) {
+        match t.pick(11) {
             0 | 1 | 2 if !quiets.is_empty() => Some(quiets[t.pick(quiets.len())]),
             3 if !caps.is_empty() => Some(caps[t.pick(caps.len())]),
             4 => hash,
             5 if !elsewhere.is_empty() => Some(elsewhere[t.pick(elsewhere.len())]),
             6 => arbitrary_move(t),
+            7 | 8 if !siblings.is_empty() => Some(siblings[t.pick(siblings.len())]),
+            9 | 10 if !near_misses.is_empty() => Some(near_misses[t.pick(near_misses.len())]),
             _ if !legal.is_empty() => Some(legal[t.pick(legal.len())]),
             _ => None,
         }
